@@ -1,9 +1,11 @@
 """Python twin of lean/NemoVerif/Drive/C11.lean: Python object graphs <-> the JSON encoding of `Serialize.PV`.
 
-    PV:  None | True/False | {"i":n} | {"f":[m,e]} | {"s":str} | {"l":[..]} | {"t":[..]} | {"S":[..]} | {"q":[..]}
+    PV:  None | True/False | {"i":n} | {"ih":hex} (an int too long for decimal transport) | {"f":[m,e] | "-0" | "nan" | "inf" | "-inf"}
+         | {"s":str} | {"su":[code points]} (a string that holds lone surrogates: not UTF-8 encodable, so it never travels raw) | {"l":[..]} | {"t":[..]} | {"S":[..]} | {"q":[..]}
          | {"d":[[key,v]..]} | {"D":[cls,[[key,v]..]]} | {"st":v} | {"e":[cls,name]} | {"dt":iso}
          | {"a":[uid,name,flow_uid|None,status,ctx,args,scope]} | {"p":1} | {"r":[pattern,flags]} | {"c":[op,value]} | {"o":cls}
-    key: None | True/False | {"i":n} | {"s":str} | {"T":[atom..]}     atom: None | True/False | {"i":n} | {"s":str}
+    key: None | True/False | {"i":n} | {"s":str} | {"T":[atom..]} | {"F":float code} (oracle level only: not in the Lean model)
+    atom: None | True/False | {"i":n} | {"s":str}
     case-only: {"share": k}  -> the k-th object of the case's pool (built once: object identity shared)
 
 `build` makes the real objects (the repo's own dataclasses, Action, enums, re.Pattern, ComparisonExpression);
@@ -12,6 +14,7 @@ isinstance order as `encode_to_dict`, so the model is asked about the value the 
 """
 import functools
 import json
+import math
 import re
 from collections import deque
 from dataclasses import fields, is_dataclass
@@ -27,6 +30,51 @@ def dyadic(x):
     return n, e
 
 
+def fcode(x):
+    """exact, JSON-safe name of a float: [m, e] (= m / 2**e) for the finite ones except -0.0, else "-0" / "nan" / "inf" / "-inf".
+    Two floats are the same value for save/restore iff their codes are equal (nan is nan, -0.0 is not 0.0)."""
+    x = float(x)
+    if x != x:
+        return "nan"
+    if x in (math.inf, -math.inf):
+        return "inf" if x > 0 else "-inf"
+    if x == 0 and math.copysign(1.0, x) < 0:
+        return "-0"
+    return list(dyadic(x))
+
+
+def fbuild(c):
+    if isinstance(c, str):
+        return {"nan": math.nan, "inf": math.inf, "-inf": -math.inf, "-0": -0.0}[c]
+    return math.ldexp(float(c[0]), -c[1])
+
+
+# CPython refuses int <-> decimal str beyond 4300 digits (json.dumps included: finding int-beyond-str-digits); the repair
+# (fixes/C11-huge-int.diff) writes ints beyond 2048 bits as {"__type": "int", "hex": …} — a representation the Lean model
+# (unbounded `Int` written as a JSON number) does not have: such ints travel as hex and are decided by the oracle only
+BIG_INT_BITS = 2048
+
+
+_DEC_LIMIT = 10 ** 4300
+
+
+def too_long_for_decimal(n):
+    """more than 4300 decimal digits: CPython's default limit for int <-> str (sys.int_info.default_max_str_digits)"""
+    return abs(n) >= _DEC_LIMIT
+
+
+def icode(n):
+    return {"i": n} if n.bit_length() <= BIG_INT_BITS else {"ih": hex(n)}
+
+
+def scode(s):
+    try:
+        s.encode("utf-8")
+        return {"s": s}
+    except UnicodeEncodeError:
+        return {"su": [ord(ch) for ch in s]}
+
+
 def _mods():
     from nemoguardrails.colang.v2_x.lang import colang_ast
     from nemoguardrails.colang.v2_x.runtime import eval as ev
@@ -39,6 +87,14 @@ class Unknown:
     """a class the serializer has never heard of"""
 
 
+# values of built-in types the encoder has no branch for, but which a Colang expression can produce and a flow can keep
+# (`"abc".encode()`, `$d.keys()`, `$l.append`): finding state-holds-unserialisable-builtin
+BUILTIN_OTHERS = {
+    "bytes": lambda: b"ab", "dict_keys": lambda: {"a": 1}.keys(), "dict_values": lambda: {"a": 1}.values(), "dict_items": lambda: {"a": 1}.items(),
+    "builtin_function_or_method": lambda: [1].append,
+}
+
+
 def build_key(k):
     if k is None or isinstance(k, bool):
         return k
@@ -46,6 +102,8 @@ def build_key(k):
         return int(k["i"])
     if "s" in k:
         return k["s"]
+    if "F" in k:
+        return fbuild(k["F"])
     return tuple(build_key(a) for a in k["T"])
 
 
@@ -57,10 +115,14 @@ def build(j, pool=None):
         return pool[j["share"]]
     if "i" in j:
         return int(j["i"])
+    if "ih" in j:
+        return int(j["ih"], 16)
     if "f" in j:
-        return float(j["f"][0]) / float(2 ** j["f"][1])
+        return fbuild(j["f"])
     if "s" in j:
         return j["s"]
+    if "su" in j:
+        return "".join(chr(c) for c in j["su"])
     if "l" in j:
         return [build(x, pool) for x in j["l"]]
     if "t" in j:
@@ -102,7 +164,7 @@ def build(j, pool=None):
               "equal_greater_than": ev._equal_or_greater_than_operator, "not_equal_to": ev._not_equal_to_operator}
         return mk[j["c"][0]](build(j["c"][1], pool))
     if "o" in j:
-        return Unknown()
+        return BUILTIN_OTHERS[j["o"]]() if j["o"] in BUILTIN_OTHERS else Unknown()
     raise ValueError(j)
 
 
@@ -113,6 +175,8 @@ def observe_key(k):
         return {"i": k}
     if isinstance(k, str):
         return {"s": k}
+    if isinstance(k, float):
+        return {"F": fcode(k)}
     if isinstance(k, tuple) and all(a is None or isinstance(a, (bool, int, str)) for a in k):
         return {"T": [observe_key(a) for a in k]}
     return {"T": [{"s": "<unmodelled key " + repr(k)[:40] + ">"}]}
@@ -130,11 +194,11 @@ def observe(o, budget=None):
     if o is None or isinstance(o, bool):
         return o
     if isinstance(o, str):
-        return {"s": o}
+        return scode(o)
     if isinstance(o, int):
-        return {"i": o}
+        return icode(o)
     if isinstance(o, float):
-        return {"f": list(dyadic(o))}
+        return {"f": fcode(o)}
     if isinstance(o, functools.partial):
         return {"p": 1}
     if isinstance(o, dict):
@@ -162,6 +226,41 @@ def observe(o, budget=None):
     return {"o": type(o).__name__}
 
 
+def unmodelled(j):
+    """why the Lean driver cannot be asked about this value (None = it can): values outside the wire format of Drive/C11"""
+    if isinstance(j, dict):
+        if "su" in j:
+            return "surrogate-string"
+        if "ih" in j:
+            return "huge-int"
+        if "i" in j or "f" in j or "s" in j:
+            return None
+        subs = []
+        for t in ("l", "t", "q", "S"):
+            if t in j:
+                subs = j[t]
+        if "d" in j:
+            for k, v in j["d"]:
+                if isinstance(k, dict) and "F" in k:
+                    return "float-key"
+                if isinstance(k, dict) and "s" in k and "su" in scode(k["s"]):
+                    return "surrogate-string"
+                if isinstance(k, dict) and "T" in k and any(isinstance(a, dict) and "s" in a and a["s"].startswith("<unmodelled key") for a in k["T"]):
+                    return "unmodelled-key"
+            subs = [v for _, v in j["d"]]
+        if "D" in j:
+            subs = [v for _, v in j["D"][1]]
+        if "a" in j:
+            subs = [j["a"][4], j["a"][5]]
+        if "c" in j:
+            subs = [j["c"][1]]
+        for x in subs:
+            r = unmodelled(x)
+            if r:
+                return r
+    return None
+
+
 def canon(j):
     """order-insensitive form: set members sorted"""
     if isinstance(j, dict):
@@ -187,7 +286,7 @@ def plain_json_to_model(x):
     if isinstance(x, list):
         return [plain_json_to_model(v) for v in x]
     if isinstance(x, float):
-        return {"__f": list(dyadic(x))}
+        return {"__f": fcode(x)}
     return x
 
 
@@ -388,7 +487,7 @@ def to_cv(o):
             return {"s": x}
         if isinstance(x, int):
             return {"i": x}
-        return {"f": list(dyadic(x))}
+        return {"f": fcode(x)}
 
     def walk(x):
         if x is None or isinstance(x, (str, int, float)):
@@ -449,7 +548,7 @@ def real_encoding_normal_form(d, ids, payload=False):
     if isinstance(d, list):
         return [real_encoding_normal_form(v, ids) for v in d]
     if isinstance(d, float):
-        return {"__f": list(dyadic(d))}
+        return {"__f": fcode(d)}
     return d
 
 
